@@ -182,3 +182,9 @@ ben("c06-special-branch-swapped", "C06", "stepper/generic/_vorticity_convection.
 mut("c12-negative-injection-dropped", "C12", "stepper/generic/_vorticity_convection.py", "            and self.injection_scale == 0.0\n", "            and self.injection_scale <= 0.0\n", "negative injection scales silently build the unforced term (seeded S33)")
 mut("c06-value-range-branch", "C06", "stepper/generic/_vorticity_convection.py", "            and self.injection_scale == 0.0\n", "            and self.injection_scale <= 0.0\n", "eager construction follows the value range, a traced one cannot")
 ben("c12-value-range-warning-only", "C12", "stepper/generic/_vorticity_convection.py", "        if (\n            isinstance(self.injection_scale, (int, float))\n            and self.injection_scale == 0.0\n        ):", "        if isinstance(self.injection_scale, (int, float)) and self.injection_scale < 0.0:\n            print(\"negative injection\")\n        if (\n            isinstance(self.injection_scale, (int, float))\n            and self.injection_scale == 0.0\n        ):", "a value-range branch without effect on the stepper")
+
+# ------------------------------------------------------------------------------------------ unusual but legal idioms
+ben("c05-inner-product-tensordot", "C05", "_spectral.py", "    operator = jnp.einsum(\n        \"i,i...->...\",\n        velocity,\n        derivative_operator**order,\n    )", "    operator = jnp.tensordot(velocity, derivative_operator**order, axes=1)", "einsum contraction written as tensordot")
+ben("c01-diffusion-tensordot", "C01", "stepper/_diffusion.py", "        linear_operator = jnp.einsum(\n            \"ij,ij...->...\",\n            self.diffusivity,\n            laplace_outer_producct,\n        )", "        linear_operator = jnp.tensordot(self.diffusivity, laplace_outer_producct, axes=2)", "double contraction written as tensordot")
+ben("c03-gs-lax-select-free", "C03", "nonlin_fun/_gradient_norm.py", "        u_gradient_norm_squared = jnp.sum(u_gradient**2, axis=1)", "        u_gradient_norm_squared = jnp.sum(jnp.square(u_gradient), axis=1)", "square instead of **2")
+ben("c16-mean-metric-take", "C16", "metrics/_utils.py", "    return jnp.mean(metric_per_sample, axis=0)", "    return jnp.sum(metric_per_sample, axis=0) / jnp.size(metric_per_sample)", "mean as sum / size")
